@@ -13,4 +13,6 @@ PROP = {'level': 'proof',
  'trusted': ['hooks in /repo (build tag verif)', 'deterministic lab: fake PacketConn, parked SecretSource/handlers'],
  'assumptions': ['listener read errors originate from Shutdown\'s Close', 'handlers return when released'],
  'shards': 16,
- 'facts': ['countedUnderLock']}
+ 'facts': ['countedUnderLock'],
+ 'race': True,
+ 'retry': True}
